@@ -533,6 +533,10 @@ impl World {
             self.serve_links();
         }
         self.check_closed();
+        let mut g = LOG.lock();
+        if g.last().map(|e| e["e"] != "settled").unwrap_or(true) {
+            g.push(json!({"e": "settled"}));
+        }
     }
 
     fn check_closed(&mut self) {
@@ -757,6 +761,10 @@ async fn run_script(case: &Value) {
                 if op == "cmd" {
                     e["body"] = json!(body);
                 }
+                let nosettle = a.get("nosettle").and_then(|v| v.as_bool()).unwrap_or(false);
+                if nosettle {
+                    e["ns"] = json!(true);
+                }
                 log(e);
                 if let Some(rem) = w.remotes.get_mut(&r) {
                     if let Some(tx) = rem.tx.as_mut() {
@@ -783,7 +791,7 @@ async fn run_script(case: &Value) {
                         }
                     }
                 }
-                if !a.get("nosettle").and_then(|v| v.as_bool()).unwrap_or(false) {
+                if !nosettle {
                     w.settle().await;
                 }
             }
